@@ -407,6 +407,10 @@ class CallMixin:
         if v.k == "ref" and v.cls is None and not ty.endswith("?"):
             base, elem = split_type(ty)
             return V("ref", v.t, cls=base, elem=elem)
+        if v.k == "ref" and v.elem is None and not ty.endswith("?"):
+            base, elem = split_type(ty)
+            if base == v.cls and elem:
+                return V("ref", v.t, cls=base, elem=elem, note=v.note)
         return v
 
     def apply_contract(self, c, args, kwargs, st, node):
@@ -468,6 +472,10 @@ class CallMixin:
         env2 = dict(env, result=res)
         for cl in c.ensures:
             st.assume(self.spec_eval_in(cl, st, env2, pre))
+        if not feasible(st.pc, 5000):
+            # vacuity guard: the callee's postcondition contradicts what the caller knows — a contract (or encoding) error, never a proof
+            from .source import SourceError
+            raise SourceError(f"{self.where(node)}: the ensures of {c.qual} are inconsistent with the caller's state (vacuous path)")
         for tag, exprs in c.logs:
             st.log.append((tag,) + tuple(self.spec_value_in(x, st, env2, pre) for x in exprs) + (getattr(node, "lineno", 0),))
         self.after_call(c, env2, st, node)
